@@ -320,6 +320,14 @@ fn cycle(w: &mut World, fl: &Floors, filler: &mut Filler, kind: &str) -> Result<
     }
     filler.check_span()?;
     filler.mutators = [None; MAX_MUTATORS];
+    // with 60 % of the heap in use: two half-heap requests that are not at a safepoint (refused, or
+    // granted where the plan has the room); whatever they reserved must be given back like
+    // everything else
+    if kind == "los" || kind == "mixed" {
+        for _ in 0..2 {
+            w.nonsafepoint_request(0, (filler.heap / 2) & !4095)?;
+        }
+    }
     let peak = Snap::take(w, fl);
     if kind == "twomut" {
         // first with both mutators still bound: drop the references, collect, measure
